@@ -18,6 +18,7 @@
 From Coq Require Import ZArith String List Bool Lia.
 From TV Require Import model.Tak model.Road model.PySem.
 From TV Require Import proofs.MoveRulesUtil proofs.PySemLemmas proofs.MoveRules proofs.Table.
+From TV Require model.RoadPy spec.RoadSpec proofs.RoadPyProofs.
 From TV Require gen.GameGen.
 Import ListNotations.
 Open Scope Z_scope.
@@ -199,6 +200,96 @@ Qed.
 Theorem gen_move_never_crashes p m : shape p -> slide_has_drops m -> forall e, GameGen.move p m <> Crash e.
 Proof. intros Hs Hd e. rewrite gen_move_eq by assumption. apply embed_no_crash. Qed.
 
+(* ====================== Position.is_road / _walk / has_road ====================== *)
+(* The translated work-list search against the statement-by-statement hand model of model/RoadPy.v (near-syntactic:
+   q.pop() is the last element, `seen` a list used as a set, the early `return True` is the right summand of the loop's
+   result), then through proofs/RoadPyProofs.v (the fuel 5*size^2 + len(seeds) + 1 suffices; the work list computes the
+   neighbour closure) against model/Road.v. *)
+Lemma py_pop_last_eq {A} (q : list A) :
+  py_pop_last q = match RoadPy.pop_last q with Some (r, x) => Some (x, r) | None => None end.
+Proof.
+  induction q as [|a t IH]; [reflexivity|]. cbn [py_pop_last RoadPy.pop_last]. rewrite IH.
+  destruct (RoadPy.pop_last t) as [[r x]|]; reflexivity.
+Qed.
+
+Lemma gen_kind_is_road k : GameGen.Kind_is_road k = kind_is_road k.
+Proof. destruct k; reflexivity. Qed.
+
+Lemma gen_is_road_eq p x y : shape p -> in_bounds (size p) x y = true ->
+  GameGen.is_road p x y = Ok (match sq p x y with [] => false | top :: _ => kind_is_road (pkind top) end).
+Proof.
+  intros Hs Hb. unfold GameGen.is_road. rewrite (gen_getitem_eq p x y Hs Hb). cbn [bind].
+  destruct (sq p x y) as [|top rest]; [reflexivity|]. unfold len. rewrite zlen_cons_gtb, py_getitem_0_cons. cbn [bind ret].
+  unfold GameGen.Piece_is_road. rewrite gen_kind_is_road. reflexivity.
+Qed.
+
+Definition walk_result (r : (list (Z * Z) * list (Z * Z)) + bool) : bool :=
+  match r with inl _ => false | inr b => b end.
+Definition embed_fuel {A} (r : RoadPy.pyres A) : res A := match r with RoadPy.Done a => Ok a | RoadPy.OutOfFuel => Crash PySem.OutOfFuel end.
+
+Lemma gen_walk_loop_eq p c horiz : shape p -> forall fuel seen q,
+  res_map walk_result (GameGen._walk_while1 fuel p c horiz seen q) = embed_fuel (RoadPy.walk_loop fuel p c horiz seen q).
+Proof.
+  intros Hs. induction fuel as [|fuel IH]; intros seen q; [reflexivity|].
+  cbn [GameGen._walk_while1 RoadPy.walk_loop]. unfold py_pop. rewrite py_pop_last_eq. unfold Road.sqr in *.
+  destruct q as [|a t]; [reflexivity|]. cbn [truthy_list].
+  destruct (RoadPy.pop_last (a :: t)) as [[r j]|] eqn:Ep; [|destruct t; cbn in Ep; [discriminate|destruct (RoadPy.pop_last _) as [[? ?]|]; discriminate]].
+  cbn [bind]. change (existsb (pair_eqb Z.eqb Z.eqb j) seen) with (smem j seen).
+  destruct (smem j seen); [apply IH|]. cbv zeta. destruct j as [x y].
+  rewrite gen_in_bounds_eq. destruct (in_bounds (size p) x y) eqn:Hb; cbn [negb]; [|apply IH].
+  rewrite (gen_is_road_eq p x y Hs Hb). cbn [bind].
+  destruct (sq p x y) as [|top rest] eqn:Esq; cbn [negb bind ret]; [apply IH|].
+  destruct (kind_is_road (pkind top)); cbn [negb orb bind ret]; [|apply IH].
+  rewrite (gen_getitem_eq p x y Hs Hb), Esq. cbn [bind]. rewrite py_getitem_0_cons. cbn [bind ret].
+  destruct (negb (color_eqb (pcolor top) c)); [apply IH|].
+  destruct (horiz && (x =? size p - 1)); [reflexivity|].
+  destruct (negb horiz && (y =? size p - 1)); [reflexivity|]. apply IH.
+Qed.
+
+Theorem gen_walk_eq p seeds c horiz : shape p ->
+  GameGen._walk p seeds c horiz =
+  embed_fuel (RoadPy.walk_py (Z.to_nat (5 * size p * size p + zlen seeds + 1)) p seeds c horiz).
+Proof.
+  intros Hs. unfold GameGen._walk, RoadPy.walk_py. cbv zeta. unfold len.
+  generalize (Z.to_nat (5 * size p * size p + zlen seeds + 1)) as f. intros f.
+  pose proof (gen_walk_loop_eq p c horiz Hs f [] seeds) as H. unfold Road.sqr in *.
+  destruct (GameGen._walk_while1 f p c horiz [] seeds) as [[[s' q']|b]| |e];
+    destruct (RoadPy.walk_loop f p c horiz [] seeds) as [b'|]; cbn [res_map walk_result embed_fuel] in H; try discriminate H;
+    cbn [bind ret embed_fuel]; exact H.
+Qed.
+
+(* Position.has_road: on every position with a size^2 board and size >= 1 the translated work-list search never runs
+   out of fuel and answers what the closure model answers *)
+Theorem gen_has_road_eq p : RoadSpec.wf_pos p -> GameGen.has_road p = Ok (Road.has_road p).
+Proof.
+  intros Hwf. pose proof Hwf as (Hn & Hs). unfold GameGen.has_road. cbv zeta.
+  change (map (fun i => (0, i)) (py_range (size p))) with (RoadPy.left_seeds p).
+  change (map (fun i => (i, 0)) (py_range (size p))) with (RoadPy.top_seeds p).
+  rewrite !(gen_walk_eq p _ _ _ Hs). rewrite RoadPyProofs.left_seeds_eq, RoadPyProofs.top_seeds_eq.
+  assert (Hf : forall h, (RoadPy.walk_fuel p <= Z.to_nat (5 * size p * size p + zlen (seeds (size p) h) + 1))%nat).
+  { intros h. unfold zlen. rewrite RoadPyProofs.seeds_length. unfold RoadPy.walk_fuel. nia. }
+  rewrite !RoadPyProofs.walk_py_eq by (try exact Hwf; apply Hf). cbn [embed_fuel bind].
+  unfold Road.has_road, color_has_road. cbv zeta.
+  destruct (walk p White true), (walk p White false), (walk p Black true), (walk p Black false);
+    cbn [bind ret andb orb]; try reflexivity.
+  all: unfold GameGen.flip, GameGen.to_move, to_move; rewrite Zmod_even; destruct (Z.even (ply p)); reflexivity.
+Qed.
+
+(* a board of size 0: both seed lists are empty, nobody has a road *)
+Lemma gen_has_road_eq0 p : size p = 0 -> GameGen.has_road p = Ok (Road.has_road p).
+Proof.
+  intros H0. unfold GameGen.has_road, GameGen._walk, Road.has_road, color_has_road, walk, seeds, zrange. cbv zeta. rewrite !H0.
+  reflexivity.
+Qed.
+
+(* the positions has_road is proved on: a size^2 board of size >= 0 *)
+Definition road_ok (p : position) : Prop := 0 <= size p /\ shape p.
+Lemma gen_has_road_ok p : road_ok p -> GameGen.has_road p = Ok (Road.has_road p).
+Proof.
+  intros (Hn & Hs). destruct (Z.eq_dec (size p) 0) as [H0|H0]; [apply gen_has_road_eq0; exact H0|].
+  apply gen_has_road_eq. split; [lia|exact Hs].
+Qed.
+
 (* ====================== flat_counts / winner / ALL_SLIDES / all_moves_for_size ====================== *)
 (* ---------- flat_counts, flats_winner, winner: no guard at all ---------- *)
 Lemma zlen_filter_cons {A} (f : A -> bool) a l :
@@ -228,15 +319,20 @@ Proof.
   rewrite Z.gtb_ltb. destruct (_ <? _); [reflexivity|]. destruct (_ <? _); reflexivity.
 Qed.
 
-Theorem gen_winner_eq p : GameGen.winner p = Ok (winner p).
+Theorem gen_winner_ok p : road_ok p -> GameGen.winner p = Ok (winner p).
 Proof.
-  unfold GameGen.winner, winner. cbv zeta. destruct (has_road p) as [c|]; cbn [negb]; [reflexivity|].
+  intros Hok. unfold GameGen.winner, winner. rewrite (gen_has_road_ok p Hok). cbn [bind].
+  destruct (has_road p) as [c|]; [reflexivity|].
   change (forallb truthy_list (board p)) with (board_full p).
   replace (existsb _ (py_tuple2_list (pos_stones p))) with (out_of_pieces p)
     by (unfold out_of_pieces; cbn; rewrite orb_false_r; reflexivity).
   destruct (board_full p || out_of_pieces p); [|reflexivity].
   rewrite gen_flats_winner_eq. reflexivity.
 Qed.
+
+(* Position.winner with the translated has_road: positions with a size^2 board of size >= 1 *)
+Theorem gen_winner_eq p : RoadSpec.wf_pos p -> GameGen.winner p = Ok (winner p).
+Proof. intros (Hn & Hs). apply gen_winner_ok. split; [lia|exact Hs]. Qed.
 
 (* ---------- ALL_SLIDES ---------- *)
 Theorem gen_all_slides_eq : GameGen.ALL_SLIDES = Ok (map all_slides (seq 0 9)).
